@@ -511,6 +511,37 @@ def _service_discipline(ctx):
            bool(gcs) and skip is None,
            'every synchronisation of the network service collects the '
            'addresses whose owner is gone', construct='collector is run')
+    # the service re-uses the address it remembers for a request
+    # (self._devices): an address that is given back is forgotten in the same
+    # step, or a retry of the request re-uses an address that meanwhile
+    # belongs to somebody else
+    for func in svc.live_methods():
+        fgraph = ctx.cfg(func)
+        frees = [n for n, c in K.nodes_calling(
+            fgraph, lambda c: K.is_meth(c, 'free') and
+            (K.recv_text(c) or '').endswith('_vips'))]
+
+        def forgets(node):
+            if any(K.is_meth(c, 'pop') and
+                   (K.recv_text(c) or '').endswith('_devices')
+                   for c in C.node_calls(node)):
+                return True
+            return node.kind == 'stmt' and isinstance(
+                node.ast, ast.Delete) and any(
+                    isinstance(t, ast.Subscript) and
+                    N.txt(t.value).endswith('_devices')
+                    for t in node.ast.targets)
+        forgot = [n for n in fgraph.nodes if forgets(n)]
+        for node in frees:
+            before = K.guarded_by(fgraph, node, lambda e: e.src in forgot and
+                                  e.kind != 'exc')
+            after = K.find_path(node, [fgraph.exit, fgraph.raise_exit],
+                                cut_node=lambda n: n in forgot,
+                                follow_exc=True) is None
+            ctx.ob('C14.4', func, node, before or after,
+                   'an address given back is also dropped from the '
+                   'remembered devices of the service',
+                   construct='freed address forgotten')
 
 
 def check(ctx):
